@@ -335,11 +335,12 @@ def reset_survives_self_cancel(ctx, repo, rule):
     gr = cfg_of(reset)
     con = repo.method("GeckoAsyncSpa", "_connect")
     ping_key = None
-    for n in walk_no_nested(con.node):
-        if isinstance(n, ast.Call) and call_name(n) == "add_task" and n.args and isinstance(n.args[0], ast.Call) and call_name(n.args[0]) == "_ping_loop" and len(n.args) > 2:
-            ping_key = repo.try_fold(n.args[2])
+    from ..facts import started_tasks
+    for a, _name, key, _n in started_tasks(repo, con):
+        if isinstance(a, ast.Call) and call_name(a) == "_ping_loop":
+            ping_key = key
     ctx.ob(rule, "ping-loop::task-key", isinstance(ping_key, str), "cannot determine the task key of the ping loop", con.loc)
-    selfc = [n for n, c in gsd.nodes_calling("cancel_key_tasks") if c.args and repo.try_fold(c.args[0]) == ping_key]
+    selfc = [n for n, c in gsd.nodes_calling("cancel_key_tasks") if c.args and repo.try_fold(c.args[0], sd.mod, sd.cls) == ping_key]
     for cn in selfc:
         late = sorted((x for x in gsd.reach_from(cn, labels_skip=("exc",)) if x.suspends), key=lambda x: x.lineno)
         ctx.ob(rule, "GeckoAsyncSpa.disconnect::no-await-after-self-cancel", not late,
